@@ -75,11 +75,15 @@ class FullFrontend(ConstrainedFrontend):
 
     def _get_solver(self):
         if self._solver_backend.reuse_z3_solver:
-            # the Z3 solver is shared by all frontends of this thread, and whoever used it last left its own
-            # constraints behind: reset it (solver() does) and re-add ours
-            self._tls.solver = self._solver_backend.solver(timeout=self.timeout, max_memory=self.max_memory)
+            # the Z3 solver is shared by all frontends of this thread. If another frontend used it last, it still
+            # holds that frontend's constraints: reset it (solver() does) and claim it before re-adding ours
+            solver = getattr(self._tls, "solver", None)
+            if solver is None or getattr(solver, "_claripy_user", None) is not self._tls:
+                solver = self._solver_backend.solver(timeout=self.timeout, max_memory=self.max_memory)
+                solver._claripy_user = self._tls
+                self._tls.solver = solver
             self._add_constraints()
-            return self._tls.solver
+            return solver
 
         if getattr(self._tls, "solver", None) is None:
             self._tls.solver = self._solver_backend.solver(timeout=self.timeout, max_memory=self.max_memory)
